@@ -265,6 +265,55 @@ CLAIMS = {
              "escaping exceptions (fixed). Cryptographic correctness is not decided.",
         technique="exception-escape analysis over the call graph with a frozen catalogue + null-belief rule on the CFG + table agreement",
         note="operations outside the catalogue are assumed total"),
+    "C40": dict(
+        text="Partial: in SSHConfig._lookup blocks are visited in file order, a block is skipped exactly when neither its "
+             "Host patterns nor its Match criteria apply, every store is under `key not in options`, only identityfile "
+             "accumulates (filtered against duplicates) and stored values are copies; parse stores scalars only when "
+             "absent, appends list keys, pushes every block. _pattern_matches is evaluated from its AST over the complete "
+             "quotient of its inputs (negated/positive x matching/not, all sequences up to 4, list and string forms). "
+             "HostName defaults only when absent; every consumer of block records uses a key common to all record shapes "
+             "or .get (found get_hostnames' KeyError on Match blocks, fixed); the token tables, replacement loop and "
+             "token sources agree with ssh_config(5). fnmatch, expansion values and DNS canonicalisation not decided.",
+        technique="edge dominance on the CFG + truth-table evaluation of extracted ASTs over a finite quotient + record-shape inference + table folding",
+        note="fnmatch / shlex trusted"),
+    "C41": dict(
+        text="Partial: no list in hostkeys.py is mutated (directly or through an alias) while a for-loop iterates it; "
+             "to_line / from_line agree on field order and separators; _hostname_matches is evaluated from its AST over the "
+             "complete quotient of stored-name classes x plain/hashed query (all name lists up to 3); hash_host's output "
+             "format and salt re-derivation agree; lookup collects in file order, SubDict returns the first entry of a "
+             "type, check compares exactly that entry; save writes every entry in order; load's duplicate suppression is "
+             "evaluated over all known/unknown patterns of up to 4 names with CPython's index-based iteration semantics. "
+             "Found the alias mutation that made reloads add duplicates (fixed). Idempotence over arbitrary files not decided.",
+        technique="alias-aware iterate-and-mutate rule + evaluation of extracted ASTs over finite quotients + writer/reader agreement",
+        note="HMAC / base64 / PKey round trip (C36) trusted"),
+    "C43": dict(
+        text="Exact decision over a finite abstract domain: get_modulus uses (min, prefer, max) and the sizes only in "
+             "comparisons / sorted / first-last subscripts (any arithmetic on them is refused by the evaluator: exit 2), so "
+             "its AST is evaluated on a representative of every weak ordering of the three parameters x every placement of "
+             "up to 3 (thorough: 4) sizes in the induced regions, and compared with the statement. _parse_modulus is "
+             "evaluated on a grid of (type, tests, tries, size offset, generator); _roll_random returns only under num < n "
+             "with num non-negative; the server call site passes (min, n, max) in wire order. Found the below-minimum "
+             "offer for prefer < min (fixed).",
+        technique="abstract interpretation over order types (own evaluator on the working tree's AST) + threshold-grid truth table + CFG dominance",
+        note="sizes are positive; the acceptance rule for moduli lines is the documented one"),
+    "C44": dict(
+        text="Structural decision on every path of AuthStrategy.authenticate, path-sensitive in the success flag: the loop "
+             "iterates get_sources() itself, every iteration makes one attempt and appends exactly one "
+             "SourceResult(source, return-or-exception) to the one overall result, the handler catches every Exception and "
+             "falls through to the append, the flag is set only on the attempt's normal continuation, no source is "
+             "fetched or attempted once it is set, a failure goes on to the next source, the function returns the result "
+             "only with the flag set and raises AuthFailure(result=the same list) only with it clear.",
+        technique="CFG dominance with exception edges + constant-tracking path-sensitive reachability + value-origin",
+        note="covers all source lists and outcomes because the rule is about the loop"),
+    "C45": dict(
+        text="Structural decision: AgentKey.sign_ssh_data builds [byte 13, string self.asbytes(), string data, uint32 "
+             "flags] and sends that very message; flags is ALGORITHM_FLAG_MAP.get(algorithm, 0) and the table folded from "
+             "the module (including the loop adding certificate forms) is exactly the four names -> 2 / 4, written nowhere "
+             "else; the reply type is compared with 14 with a raising arm dominating the return; the returned value is "
+             "the reply's get_binary() unchanged; asbytes() is the inner key's or the agent's blob; _send_message / "
+             "_read_all frame and read exactly the announced length and raise on end of stream.",
+        technique="wire-layout extraction + constant folding of the module-level table + CFG edge dominance + loop-progress rule",
+        note="covers all algorithm names because the lookup is a defaulting dictionary access"),
     "C03": dict(
         text="Exact decision over a finite abstract domain: the framing arithmetic "
              "of Packetizer._build_packet is interpreted from the current AST for every "
